@@ -12,7 +12,7 @@ META = {
         "for root and nested receivers and every buffering mode, on the context-sensitively inlined effect automaton: "
         "after each mutation of the tree's data every path to a normal return completes a save on the root at suspend depth 0 "
         "(C01.a); _save delegates to the root / dispatches on buffering (C01.b); each backend writer always reaches a write "
-        "sink whose payload is the whole tree (C01.c); _to_base stores one entry per element and recurses (C01.d). "
+        "sink whose payload is the whole tree (C01.c); _to_base stores one entry per element and recurses (C01.d). An error raised by a write sink of a backend writer propagates to the caller: no path from the sink's exceptional edge to the normal return (C01.f). "
         "Equality of the stored content with built-in dict/list semantics is value-level and NOT decided."
     ),
     "rule": "contexts = concrete class x public mutator (from MRO incl. collections.abc mixins) x {root,nested} x buffering mode; non-trivial = automaton contains a user mutation of _data",
